@@ -10,7 +10,8 @@
     with the two repairs made for this property (ENOTDIR treated as missing; everything below
     a wounded directory is wounded without looking at the disk). *)
 From Wharf Require Import FS.Light FS.Tree FS.Ops FS.OpsProofs
-     Heal.Validator Heal.Healer Heal.HealMeasure Heal.HealMain Heal.HealWitness.
+     Heal.Validator Heal.Healer Heal.HealMeasure Heal.HealMain Heal.HealWitness
+     Heal.HealProofs Heal.HealInv2 Heal.Granular Heal.GranularProofs Heal.GranularWitness.
 
 (** For all signed builds (well-formed containers), all damaged trees - any finite map from
     paths to files / directories / symlinks, the target missing, empty, or any directory below
@@ -109,3 +110,105 @@ Example heal_witnesses_healed :
    terminal s = true /\ result s = Some (Ok tt) /\ restoredb w_build w_target (s_fs s) = true).
 Proof. exact witnesses_healed_lemma. Qed.
 Print Assumptions heal_witnesses_healed.
+
+(** ---------------------------------------------------------------------------------------------
+    ONE FILESYSTEM OPERATION PER STEP.
+
+    In the transition system above one entry check of the validator, one [processWound] of the
+    healer and the [GetWriter] of the heal worker are single steps.  [Heal/Granular.v] is the
+    finer system in which every step of every goroutine performs at most ONE operation of
+    [FS/Ops.v] (validator: Lstat, then Readlink / open+read; healer: receive, Lstat, Remove,
+    MkdirAll / MkdirAll(dir), Lstat, RemoveAll | Remove, Symlink; worker: receive, MkdirAll(dir),
+    Lstat, RemoveAll | Remove, OpenFile(O_CREATE|O_TRUNC), write), the goroutine remembering in
+    its program counter where it is; an operation that fails ends the goroutine with that error
+    and the tree as it is at that point.  [sched] interleaves these single operations
+    arbitrarily.  Proofs: [Heal/HealInv2.v], [Heal/GranularProofs.v].
+
+    REDUCTION.  [abs] maps a granular state to the atomic state in which the [processWound] /
+    [GetWriter] in progress is finished and the validator's half-done check has not started.
+    For every interleaving of single operations there is a schedule of the atomic system, not
+    longer, that reaches exactly [abs g]; when no healer / worker call is in progress - in
+    particular whenever [Validate] has returned - the shared state (tree, result, channel,
+    queues) IS the state reached by that atomic schedule.  So every final tree and every result
+    of the granular system is a final tree and result of the atomic system: the atomicity
+    assumption of the three-thread model costs nothing (at the granularity of [FS/Ops.v]). *)
+Theorem granular_refines_atomic :
+  forall (cap : nat), 0 < cap ->
+  forall (b : build), wf_build b = true ->
+  forall (T : path) (t0 : tree), init_ok T t0 = true ->
+  forall gsched : list tid,
+    let g := grun fixed cap b T gsched (ginit b t0) in
+    exists asched : list tid,
+      length asched <= length gsched /\
+      abs T g = run fixed cap b T asched (init b t0) /\
+      (g_h g = HP0 -> g_w g = WP0 -> g_s g = run fixed cap b T asched (init b t0)) /\
+      (gterminal g = true -> g_s g = run fixed cap b T asched (init b t0)).
+Proof. exact granular_refines_lemma. Qed.
+Print Assumptions granular_refines_atomic.
+
+(** [heal_restores] for the granular system, same statement: for all capacities >= 1, well-formed
+    containers, damaged trees and ALL interleavings of the single filesystem operations,
+    (1) if Validate has returned, it returned nil, the build is restored, fail-fast passes;
+    (2) if no goroutine can move, Validate has returned;
+    (3) every effective step decreases [gmu] = 10 * [mu] of the abstract state + the number of
+        operations left inside the calls in progress (<= 9), which never exceeds its initial
+        value 10 * mu b (init b t0) + 1. *)
+Theorem heal_restores_granular :
+  forall (cap : nat), 0 < cap ->
+  forall (b : build), wf_build b = true ->
+  forall (T : path) (t0 : tree), init_ok T t0 = true ->
+  forall sched : list tid,
+    let g := grun fixed cap b T sched (ginit b t0) in
+    (gterminal g = true ->
+       gresult g = Some (Ok tt) /\ restored b T (g_fs g) /\ ff_valid fixed b T (g_fs g) = true) /\
+    ((forall i, gstep fixed cap b T g i = None) -> gterminal g = true) /\
+    (forall i g', gstep fixed cap b T g i = Some g' -> gmu b T g' < gmu b T g) /\
+    gmu b T g <= gmu b T (ginit b t0).
+Proof. exact heal_restores_granular_lemma. Qed.
+Print Assumptions heal_restores_granular.
+
+Theorem heal_completes_granular :
+  forall (cap : nat), 0 < cap ->
+  forall (b : build), wf_build b = true ->
+  forall (T : path) (t0 : tree), init_ok T t0 = true ->
+  forall (sched prio : list tid) (fuel : nat),
+    In TV prio -> In TH prio -> In TW prio -> gmu b T (ginit b t0) <= fuel ->
+    let g := gfinish fixed cap b T fuel prio (grun fixed cap b T sched (ginit b t0)) in
+    gterminal g = true /\ gresult g = Some (Ok tt) /\ restored b T (g_fs g) /\
+    ff_valid fixed b T (g_fs g) = true.
+Proof. exact heal_completes_granular_lemma. Qed.
+Print Assumptions heal_completes_granular.
+
+(** healing a valid directory changes nothing, under every interleaving of single operations
+    (either variant of the code, any capacity, any container) *)
+Theorem heal_idempotent_granular :
+  forall (fx : fixes) (cap : nat) (b : build) (T : path) (t0 : tree),
+    init_ok T t0 = true -> node_at t0 T = Some Dir -> ff_valid fx b T t0 = true ->
+    forall sched : list tid, g_fs (grun fx cap b T sched (ginit b t0)) = t0.
+Proof. exact heal_idempotent_granular_lemma. Qed.
+Print Assumptions heal_idempotent_granular.
+
+(** the order of events behind the reduction, for the atomic system (any variant of the code):
+    an invariant of every step from a state satisfying [INV] *)
+Theorem atomic_event_order_invariant :
+  forall (fx : fixes) (cap : nat) (b : build) (T : path) (s : state) (i : tid) (s' : state),
+    INV b T s -> Inv2 b s -> step fx cap b T s i = Some s' -> Inv2 b s'.
+Proof. exact step_inv2. Qed.
+Print Assumptions atomic_event_order_invariant.
+
+(** non-vacuity: the goroutines really are inside their calls at the same time (validator
+    between Lstat and Readlink of one entry while the healer is between Lstat and Remove of
+    another), and the witnesses are healed under round-robin schedules of single operations *)
+Example granular_witnesses :
+  (let g := grun fixed 1024 w_build w_target gw_prefix (ginit w_build w_tree_link) in
+   g_v g = VPmid /\ g_h g = HPDirRemove [1%N] /\ quiescent g = false /\
+   let g' := gfinish fixed 1024 w_build w_target 400 [TV; TH; TW] g in
+   gterminal g' = true /\ gresult g' = Some (Ok tt) /\ restoredb w_build w_target (g_fs g') = true) /\
+  (let g := grun fixed 1 w_build w_target (round_robin 60) (ginit w_build w_tree_link) in
+   gterminal g = true /\ gresult g = Some (Ok tt) /\ restoredb w_build w_target (g_fs g) = true) /\
+  (let g := grun fixed 1 w_build w_target (round_robin 60) (ginit w_build w_tree_file) in
+   gterminal g = true /\ gresult g = Some (Ok tt) /\ restoredb w_build w_target (g_fs g) = true) /\
+  (let g := grun fixed 2 w_build w_target (round_robin 60) (ginit w_build []) in
+   gterminal g = true /\ gresult g = Some (Ok tt) /\ restoredb w_build w_target (g_fs g) = true).
+Proof. exact granular_witness_lemma. Qed.
+Print Assumptions granular_witnesses.
